@@ -9,6 +9,7 @@
 (*   json   the real serde_json output for the value (kind "ser"), or a    *)
 (*          witness drawn from the declared type (kind "wit") together     *)
 (*          with what serde's Deserialize did with it (accepted, reser)    *)
+(*   other  (kind "same") a second type that has to be the same as root    *)
 (* BaseEnv holds the declarations of the helper types, parsed from their   *)
 (* real decl() as well.  The verdict is Inhabits(..) of TsTypes.tla.       *)
 (***************************************************************************)
@@ -35,8 +36,12 @@ SerOK == Inhabits(R.json, R.root, Env)
 WitIn  == Inhabits(R.json, R.root, Env)
 WitOK  == R.accepted /\ Inhabits(R.reser, R.root, Env)
 
+\* C12, "transparent wrappers are their content": the two presentations are the same type
+SameOK == R.root = R.other
+
 Judge == i = 0 \/
-  IF R.kind = "ser" THEN SerOK \/ PrintT(<<"BAD", ToJson(i)>>)
+  IF R.kind = "same" THEN SameOK \/ PrintT(<<"BAD", ToJson(i)>>)
+  ELSE IF R.kind = "ser" THEN SerOK \/ PrintT(<<"BAD", ToJson(i)>>)
   ELSE /\ (WitIn \/ PrintT(<<"TOOL", ToJson(i)>>))
        /\ (~WitIn \/ WitOK \/ PrintT(<<"BAD", ToJson(i)>>))
 =============================================================================
